@@ -40,7 +40,7 @@ class C01(Check):
                'rxsci/operators/filter.py', 'rxsci/operators/first.py', 'rxsci/operators/last.py', 'rxsci/operators/take.py', 'rxsci/operators/tee_map.py',
                'rxsci/operators/flat_map.py', 'rxsci/operators/do_action.py', 'rxsci/operators/assert_.py', 'rxsci/operators/progress.py',
                'rxsci/operators/distinct_until_changed.py', 'rxsci/data/batch.py', 'rxsci/data/clip.py', 'rxsci/data/fill_none.py', 'rxsci/data/to_list.py', 'rxsci/data/to_array.py']
-    REQUIRED_TAGS = DUAL + ['zip', 'merge', 'combine_latest', 'group', 'multiplex', 'roll', 'split', 'len>=3', 'truthy-predicates', 'many-groups', 'scale', 'assert-fails', 'seed-factory-whose-product-holds-an-identity', 'ints-beyond-2**31-within-64-bits', 'items-that-are-lazy-iterables-without-len'] + PRELUDE_TAGS
+    REQUIRED_TAGS = DUAL + ['group-ends-with-equal-items-of-different-classes', 'zip', 'merge', 'combine_latest', 'group', 'multiplex', 'roll', 'split', 'len>=3', 'truthy-predicates', 'many-groups', 'scale', 'assert-fails', 'seed-factory-whose-product-holds-an-identity', 'ints-beyond-2**31-within-64-bits', 'items-that-are-lazy-iterables-without-len'] + PRELUDE_TAGS
     REQUIRED_OBSERVED = ['groups_compared', 'items_compared']
 
     def generate(self, rng, tier, shard, nshards):
@@ -87,6 +87,36 @@ class C01(Check):
                     case['ctx'] = ['roll', rng.randint(1, 5), rng.randint(1, 5), None]
                 elif mode == 'split':
                     case['ctx'] = ['split', 'div:%d' % rng.randint(2, 5), None]
+                yield case
+                continue
+            if k % 50 == 41:
+                # a group that ENDS with a run of items that are equal under == and still different objects of different classes (a str
+                # next to a str subclass, a tuple next to a namedtuple, a bool next to a numpy.bool_): the multiplexed path must hand
+                # on the very item the plain path hands on, not an equal one it saw earlier
+                kk = rng.choice([2, 4, 6])
+                form = rng.randrange(3)           # _CLS_FORMS[k % 3]: with an even k the form is k % 3
+                kk = [6, 4, 2][form]
+                prog = rng.choice([
+                    [['map', 'divcls:%d' % kk], ['last']],
+                    [['map', 'divcls:%d' % kk], ['identity'], ['last']],
+                    [['filter', 'modne:7:6'], ['map', 'divcls:%d' % kk], ['last']],
+                    [['map', 'divcls:%d' % kk], ['take', rng.choice([2, 3, 5, 50])], ['last']],
+                    [['map', 'divcls:%d' % kk], ['first']],
+                ])
+                mode = modes[(k // 50) % len(modes)]
+                ng = rng.choice([1, 2, 3]) if mode == 'group' else 1
+                seqs = []
+                for _ in range(ng):
+                    xs = [rng.randint(0, 12) for _ in range(rng.choice([0, 1, 3, 6]))]
+                    m = rng.randint(0, 5) * kk
+                    xs += [m + j for j in range(rng.choice([2, 2, 3, kk]))][:kk]        # consecutive ints with one quotient: equal, alternating classes
+                    seqs.append(xs)
+                case = {'prog': prog, 'mode': mode, 'seqs': seqs, 'shape': rng.choice(gen.INTERLEAVINGS), 'iseed': rng.randrange(1 << 30),
+                        'truthy': False, 'equal_tail': True}
+                if mode == 'roll':
+                    case['ctx'] = ['roll', rng.randint(2, 5), rng.randint(1, 5), None]
+                elif mode == 'split':
+                    case['ctx'] = ['split', 'div:%d' % (kk * rng.randint(1, 3)), None]
                 yield case
                 continue
             if k % 50 == 17:
@@ -180,6 +210,8 @@ class C01(Check):
             out.tags.append('len>=3')
         if case.get('lazy'):
             out.tags.append('items-that-are-lazy-iterables-without-len')
+        if case.get('equal_tail'):
+            out.tags.append('group-ends-with-equal-items-of-different-classes')
         if case.get('bigints'):
             out.tags.append('ints-beyond-2**31-within-64-bits')
         if case.get('truthy'):
